@@ -87,10 +87,15 @@ void AddLineInfo(
         PNeu->Contents.FileName = FNum;
         PNeu->Contents.Space    = Space;
         PNeu->Contents.Address  = Address + z;
-        PNeu->Contents.Code     = ((CodeLen < z + 1) || (DontPrint)
-                                   || ((size_t)(z + 1) * sizeof(Word) > (size_t)MaxCodeLen))
-                                        ? 0
-                                        : WAsmCode[z];
+        /* only words that lie completely inside the code of this statement (on byte
+           oriented targets CodeLen counts bytes) */
+
+        PNeu->Contents.Code
+                = ((CodeLen < z + 1) || (DontPrint)
+                   || ((size_t)(z + 1) * sizeof(Word) > (size_t)MaxCodeLen)
+                   || ((size_t)(z + 1) * sizeof(Word) > (size_t)CodeLen * Granularity()))
+                          ? 0
+                          : WAsmCode[z];
         if (z == 0) {
             PFirst = PNeu;
         }
